@@ -243,6 +243,7 @@ def run(ctx):
     ctx.log("%d interrupt scenarios run through the whole program under the controlled scheduler; validating traces against Dsh/Sys.v" % len(runs))
     acc = ctx.run_lines([model], cases, env={"OCAMLRUNPARAM": "l=4G"}, crash_tag="MODEL-CRASH")
     bad, nacc, samples = 0, 0, []
+    nsched = nrej = 0
     dist = {"batch": 0, "aborts": 0, "lists": 0, "cancels": 0, "stops": 0, "signals_taken": 0}
     for (ru, n, f, batch, tconn, behs, hosts, sigs, ptick), res, case in zip(runs, acc, cases):
         dist["batch"] += 1 if batch else 0
@@ -257,17 +258,21 @@ def run(ctx):
                "sigs": sigs, "ptick": ptick, "schedule": [c for c in ru.choices if c != "sig"]}
         if e:
             bad += 1
-            ctx.violation("schedule", case=rec, expected="property holds for every arrival time of the interrupts", observed=ru.summary(), engine="sched",
+            nsched += 1
+            if nsched <= 5:
+              ctx.violation("schedule", case=rec, expected="property holds for every arrival time of the interrupts", observed=ru.summary(), engine="sched",
                           detail=e + "; trace tail: " + " | ".join(ru.lines[-14:]))
         elif not res.startswith("ACCEPT"):
             bad += 1
-            ctx.violation("no-failing-input-found", case=rec, expected="trace accepted by Dsh/Sys.v", observed=res, engine="sched",
+            nrej += 1
+            if nrej <= 3:
+              ctx.violation("no-failing-input-found", case=rec, expected="trace accepted by Dsh/Sys.v", observed=res, engine="sched",
                           correspondence="sched: event trace of the real program with interrupts is a run of the timed transition system", detail=res + " ; events: " + case[:1500])
         else:
             nacc += 1
         if len(samples) < 3 and ("XS" in toks or "SL0" in toks) and n >= 3:
             samples.append({"n": n, "fanout": f, "batch": batch, "signals": sigs, "events": " ".join(ru.sys_events())[:500], "exit": ru.exit, "exit_by": ru.exit_by})
-        if bad >= 5:
+        if nsched >= 5:
             break
     have_input = any(v["kind"] != "no-failing-input-found" for v in ctx.violations)
     vlib.report_proof_break(ctx, have_input)
